@@ -100,11 +100,12 @@ theorem options_layout_consistent :
     catchUnpackDepthIdx = some Gen.depthIndex ∧ catchRepackDepthIdx = some Gen.depthIndex ∧
     Gen.catchUnpackPrefix.length = Gen.catchRepackPrefix.length := by decide
 
-/-- the frame constants: `get_frame(depth + 2)`; the decorator adds exactly one -/
+/-- the frame constants: `get_frame(depth + 2)`; the decorator adds exactly one, `_frames` is added as is and defaults to 0 -/
 theorem frame_constants (depth : Int) :
-    Gen.frameIndex depth = depth + 2 ∧ Gen.catchDepth true depth = depth + 1 ∧
-    Gen.catchDepth false depth = depth := by
-  simp [Gen.frameIndex, Gen.catchDepth]
+    Gen.frameIndex depth = depth + 2 ∧ Gen.catchDepth true 0 depth = depth + 1 ∧
+    Gen.catchDepth false 0 depth = depth ∧ Gen.catchDepth false 1 depth = depth + 1 ∧
+    Gen.exitFramesDefault = 0 := by
+  simp [Gen.frameIndex, Gen.catchDepth, Gen.exitFramesDefault]
 
 /-! ### the property, per entry point -/
 
@@ -149,139 +150,145 @@ theorem missing_name_is_none (lib : Str → Frame) (m : MethodRow) (hm : m ∈ G
   refine ⟨recordOf f ex, frame_is_caller_plus_depth lib m hm opts d hopt us f hf ex, ?_, rfl, rfl, rfl⟩
   rcases hname with h | h <;> simp [recordOf, h]
 
-/-- catch() reached through `with`, or as a decorator of a function / generator / coroutine /
-async generator (asend): the chains of `Gen.catchRows` and the decorator increment cancel, so the
-record identifies the frame `depth` levels above the user's frame adjacent to the library frames
-(the caller of the decorated function, resp. the frame containing the `with` block) -/
-theorem catch_identifies_user_frame (lib : Str → Frame) (w : CatchRow) (hw : w ∈ Gen.catchRows)
-    (hshape : w.shape ≠ "async with".toList)
-    (opts : List Int) (d : Nat) (hopt : OptionsWithDepth opts d)
-    (us : List Frame) (f : Frame) (hf : us[d]? = some f) (ex : Exec) :
-    logViaCatch lib w opts us ex = .ok (recordOf f ex) := by
-  obtain ⟨hlen, hd⟩ := hopt
-  have hcases : (w.chain.length = 2 ∧ w.fromDecorator = true) ∨ (w.chain.length = 1 ∧ w.fromDecorator = false) := by
-    revert w; decide
-  obtain ⟨_, _, _, hi, hj, _⟩ := options_layout_consistent
-  have hn : Gen.catchUnpackPrefix.length = 3 := by decide
-  have hn' : Gen.catchRepackPrefix.length = 3 := by decide
-  match opts, hlen with
-  | [a0, a1, a2, a3, a4, a5, a6, a7, a8], _ =>
-    simp at hd
-    subst hd
-    unfold logViaCatch stackAtLog
-    rcases hcases with ⟨hc, hfd⟩ | ⟨hc, hfd⟩
-    · have : catchOptions w.fromDecorator [a0, (d : Int), a2, a3, a4, a5, a6, a7, a8] =
-          .ok [1, (d : Int) + 1, 1, a3, a4, a5, a6, a7, a8] := by
-        rw [hfd]; simp [catchOptions, hi, hj, hn, hn', Gen.catchDepth, Gen.depthIndex, List.range, List.range.loop]
-      simp only [this]
-      rw [← List.cons_append]
-      apply logCore_selects (depth := (d : Int) + 1) (d := d) (hf := hf)
-      · exact ⟨rfl, rfl⟩
-      · simp [Gen.frameIndex, hc]; omega
-    · have : catchOptions w.fromDecorator [a0, (d : Int), a2, a3, a4, a5, a6, a7, a8] =
-          .ok [1, (d : Int), 1, a3, a4, a5, a6, a7, a8] := by
-        rw [hfd]; simp [catchOptions, hi, hj, hn, hn', Gen.catchDepth, Gen.depthIndex, List.range, List.range.loop]
-      simp only [this]
-      rw [← List.cons_append]
-      apply logCore_selects (depth := (d : Int)) (d := d) (hf := hf)
-      · exact ⟨rfl, rfl⟩
-      · simp [Gen.frameIndex, hc]; omega
-
-/-- DESIGN names: catch() as a decorator identifies the caller of the decorated function … -/
-theorem decorator_identifies_caller_of_decorated (lib : Str → Frame) (w : CatchRow) (hw : w ∈ Gen.catchRows)
-    (hdec : w.fromDecorator = true)
-    (opts : List Int) (d : Nat) (hopt : OptionsWithDepth opts d)
-    (caller : List Frame) (f : Frame) (hf : caller[d]? = some f) (ex : Exec) :
-    logViaCatch lib w opts caller ex = .ok (recordOf f ex) := by
-  apply catch_identifies_user_frame lib w hw ?_ opts d hopt caller f hf ex
-  intro h
-  have : w.fromDecorator = false := by
-    revert h hdec; revert w; decide
-  simp [this] at hdec
-
-/-- … and as a (synchronous) context manager the frame containing the block -/
-theorem context_manager_identifies_block_frame (lib : Str → Frame) (w : CatchRow) (hw : w ∈ Gen.catchRows)
-    (hshape : w.shape = "with".toList)
-    (opts : List Int) (d : Nat) (hopt : OptionsWithDepth opts d)
-    (block : List Frame) (f : Frame) (hf : block[d]? = some f) (ex : Exec) :
-    logViaCatch lib w opts block ex = .ok (recordOf f ex) := by
-  apply catch_identifies_user_frame lib w hw ?_ opts d hopt block f hf ex
-  rw [hshape]; decide
-
-/-- the table has a decorator row for every kind of callable `Catcher.__call__` distinguishes and
-the plain `with` row (non-vacuity of the two theorems above) -/
-theorem catch_rows_present :
-    (Gen.catchRows.filter (·.fromDecorator)).map (·.shape) =
-      ["coroutine", "generator", "asyncgen.asend", "function"].map String.toList ∧
-    (Gen.catchRows.filter (fun w => !w.fromDecorator)).map (·.shape) = ["with", "async with"].map String.toList := by
+/-- GENERATED obligation: in every row of `Gen.catchRows` the number of library frames between
+`_log` and the user's frame is exactly what the row's depth adjustments compensate:
+1 (`__exit__`) + 1 if the Catcher is a decorator's + the `_frames` the row passes -/
+theorem catch_rows_balanced :
+    ∀ w ∈ Gen.catchRows, (w.chain.length : Int) = 1 + (if w.fromDecorator then 1 else 0) + w.frames ∧ 0 ≤ w.frames := by
   decide
 
-/-! ### `async with logger.catch()` – the full statement is FALSE of the current code -/
-
-/-- FULL statement (not provable: see `async_with_statement_false`): every catch() shape, the
-asynchronous context manager included, identifies the user's frame. -/
+/-- FULL statement: every catch() shape – `with`, `async with`, decorator of a function / generator /
+coroutine / async generator (driven by `asend` or by `async for`/`anext`) – identifies the frame
+`depth` levels above the user's frame adjacent to the library frames (the frame containing the
+block, resp. the caller / iterator of the decorated function). -/
 def catch_all_shapes_statement : Prop :=
   ∀ (lib : Str → Frame) (w : CatchRow), w ∈ Gen.catchRows →
   ∀ (opts : List Int) (d : Nat), OptionsWithDepth opts d →
   ∀ (us : List Frame) (f : Frame), us[d]? = some f → ∀ ex : Exec,
     logViaCatch lib w opts us ex = .ok (recordOf f ex)
 
-/-- what the code does for `async with`: `__aexit__` calls `__exit__`, one frame more than
-`depth + 2` accounts for, so depth 0 names loguru's own `__aexit__` frame and depth d+1 names the
-frame that depth d should have named -/
-theorem async_with_off_by_one (lib : Str → Frame) (w : CatchRow) (hw : w ∈ Gen.catchRows)
-    (hshape : w.shape = "async with".toList)
-    (a0 a2 a3 a4 a5 a6 a7 a8 : Int) (us : List Frame) (ex : Exec) :
-    logViaCatch lib w [a0, 0, a2, a3, a4, a5, a6, a7, a8] us ex = .ok (recordOf (lib "__aexit__".toList) ex) ∧
-    ∀ (d : Nat) (f : Frame), us[d]? = some f →
-      logViaCatch lib w [a0, (d : Int) + 1, a2, a3, a4, a5, a6, a7, a8] us ex = .ok (recordOf f ex) := by
+theorem catchOptions_ok (fd : Bool) (fr a0 d a2 a3 a4 a5 a6 a7 a8 : Int) :
+    catchOptions fd fr [a0, d, a2, a3, a4, a5, a6, a7, a8] = .ok [1, Gen.catchDepth fd fr d, 1, a3, a4, a5, a6, a7, a8] := by
   obtain ⟨_, _, _, hi, hj, _⟩ := options_layout_consistent
   have hn : Gen.catchUnpackPrefix.length = 3 := by decide
   have hn' : Gen.catchRepackPrefix.length = 3 := by decide
-  have hw' : w = { shape := "async with".toList, chain := ["__exit__".toList, "__aexit__".toList], fromDecorator := false } := by
-    revert hshape; revert w; decide
-  subst hw'
-  have hco : ∀ x : Int, catchOptions false [a0, x, a2, a3, a4, a5, a6, a7, a8] = .ok [1, x, 1, a3, a4, a5, a6, a7, a8] := by
-    intro x
-    simp [catchOptions, hi, hj, hn, hn', Gen.catchDepth, Gen.depthIndex, List.range, List.range.loop]
-  constructor
-  · unfold logViaCatch stackAtLog
-    simp only [hco]
-    have : (lib "_log".toList :: (List.map lib ["__exit__".toList, "__aexit__".toList] ++ us))
-        = [lib "_log".toList, lib "__exit__".toList] ++ (lib "__aexit__".toList :: us) := by simp
-    rw [this]
-    apply logCore_selects (depth := 0) (d := 0)
-    · exact ⟨rfl, rfl⟩
-    · simp [Gen.frameIndex]
-    · simp
-  · intro d f hf
-    unfold logViaCatch stackAtLog
-    simp only [hco]
-    rw [← List.cons_append]
-    apply logCore_selects (depth := (d : Int) + 1) (d := d) (hf := hf)
-    · exact ⟨rfl, rfl⟩
-    · simp [Gen.frameIndex]; omega
+  simp [catchOptions, hi, hj, hn, hn', Gen.depthIndex, List.range, List.range.loop]
 
-/-- witness replayed on the implementation by harness/c17.py (leaf `async_with`, depth 0) -/
+/-- the full statement holds of the current code (all seven rows of the generated table) -/
+theorem catch_all_shapes : catch_all_shapes_statement := by
+  intro lib w hw opts d hopt us f hf ex
+  obtain ⟨hlen, hd⟩ := hopt
+  obtain ⟨hbal, hfr⟩ := catch_rows_balanced w hw
+  match opts, hlen with
+  | [a0, a1, a2, a3, a4, a5, a6, a7, a8], _ =>
+    simp at hd
+    subst hd
+    unfold logViaCatch stackAtLog
+    simp only [catchOptions_ok]
+    rw [← List.cons_append]
+    apply logCore_selects (depth := Gen.catchDepth w.fromDecorator w.frames (d : Int)) (d := d) (hf := hf)
+    · exact ⟨rfl, rfl⟩
+    · simp only [Gen.frameIndex, Gen.catchDepth, List.length_cons, List.length_map]
+      cases hfd : w.fromDecorator <;> simp [hfd] at hbal ⊢ <;> omega
+
+theorem catch_identifies_user_frame (lib : Str → Frame) (w : CatchRow) (hw : w ∈ Gen.catchRows)
+    (opts : List Int) (d : Nat) (hopt : OptionsWithDepth opts d)
+    (us : List Frame) (f : Frame) (hf : us[d]? = some f) (ex : Exec) :
+    logViaCatch lib w opts us ex = .ok (recordOf f ex) :=
+  catch_all_shapes lib w hw opts d hopt us f hf ex
+
+/-- … and beyond the stack every catch() shape uses the placeholders instead of failing -/
+theorem catch_beyond_stack_placeholders (lib : Str → Frame) (w : CatchRow) (hw : w ∈ Gen.catchRows)
+    (opts : List Int) (d : Nat) (hopt : OptionsWithDepth opts d)
+    (us : List Frame) (hbeyond : us.length ≤ d) (ex : Exec) :
+    logViaCatch lib w opts us ex = .ok (placeholderRecord ex) := by
+  obtain ⟨hlen, hd⟩ := hopt
+  obtain ⟨hbal, hfr⟩ := catch_rows_balanced w hw
+  match opts, hlen with
+  | [a0, a1, a2, a3, a4, a5, a6, a7, a8], _ =>
+    simp at hd
+    subst hd
+    unfold logViaCatch stackAtLog
+    simp only [catchOptions_ok]
+    rw [← List.cons_append]
+    apply logCore_beyond (depth := Gen.catchDepth w.fromDecorator w.frames (d : Int)) (d := d) (hbeyond := hbeyond)
+    · exact ⟨rfl, rfl⟩
+    · simp only [Gen.frameIndex, Gen.catchDepth, List.length_cons, List.length_map]
+      cases hfd : w.fromDecorator <;> simp [hfd] at hbal ⊢ <;> omega
+
+/-- DESIGN names: catch() as a decorator identifies the caller of the decorated function … -/
+theorem decorator_identifies_caller_of_decorated (lib : Str → Frame) (w : CatchRow) (hw : w ∈ Gen.catchRows)
+    (_hdec : w.fromDecorator = true)
+    (opts : List Int) (d : Nat) (hopt : OptionsWithDepth opts d)
+    (caller : List Frame) (f : Frame) (hf : caller[d]? = some f) (ex : Exec) :
+    logViaCatch lib w opts caller ex = .ok (recordOf f ex) :=
+  catch_all_shapes lib w hw opts d hopt caller f hf ex
+
+/-- … and as a context manager (`with` and `async with`) the frame containing the block -/
+theorem context_manager_identifies_block_frame (lib : Str → Frame) (w : CatchRow) (hw : w ∈ Gen.catchRows)
+    (_hshape : w.shape = "with".toList ∨ w.shape = "async with".toList)
+    (opts : List Int) (d : Nat) (hopt : OptionsWithDepth opts d)
+    (block : List Frame) (f : Frame) (hf : block[d]? = some f) (ex : Exec) :
+    logViaCatch lib w opts block ex = .ok (recordOf f ex) :=
+  catch_all_shapes lib w hw opts d hopt block f hf ex
+
+/-- the table has a decorator row for every kind of callable `Catcher.__call__` distinguishes (the
+async generator both through `asend` and through `__anext__`, which the wrapper class defines itself)
+and the two context-manager rows (non-vacuity of the theorems above) -/
+theorem catch_rows_present :
+    (Gen.catchRows.filter (·.fromDecorator)).map (·.shape) =
+      ["coroutine", "generator", "asyncgen.asend", "asyncgen.__anext__", "function"].map String.toList ∧
+    (Gen.catchRows.filter (fun w => !w.fromDecorator)).map (·.shape) = ["with", "async with"].map String.toList ∧
+    "__anext__".toList ∈ Gen.asyncGenWrapperMethods := by
+  decide
+
+/-- regression (finding F23, fixed by ee1ea9d): `async with logger.catch()` at depth 0 names the
+frame containing the block, not loguru's own `__aexit__` frame; replayed on the implementation by
+harness/c17.py (corpus witness `drive_block`) -/
 theorem async_with_witness :
     let lib : Str → Frame := fun fn => { gname := some (some "loguru._logger".toList), file := "_logger.py".toList, func := fn, line := 0 }
-    let user : Frame := { gname := some (some "__main__".toList), file := "app.py".toList, func := "block".toList, line := 12 }
+    let user : Frame := { gname := some (some "app".toList), file := "app.py".toList, func := "block".toList, line := 3 }
     ∀ w ∈ Gen.catchRows, w.shape = "async with".toList →
-      logViaCatch lib w [0, 0, 0, 0, 0, 0, 1, 0, 0] [user] ⟨1, [], 2, [], 10, 3⟩ ≠ .ok (recordOf user ⟨1, [], 2, [], 10, 3⟩) := by
+      logViaCatch lib w [0, 0, 0, 0, 0, 0, 1, 0, 0] [user] ⟨1, [], 2, [], 10, 3⟩ = .ok (recordOf user ⟨1, [], 2, [], 10, 3⟩) ∧
+      w.chain = ["__exit__".toList, "__aexit__".toList] ∧ w.frames = 1 := by
   intro lib user w hw hshape
-  rw [(async_with_off_by_one lib w hw hshape 0 0 0 0 0 1 0 0 [user] ⟨1, [], 2, [], 10, 3⟩).1]
-  intro h
-  have h2 := congrArg Record.line (Except.ok.inj h)
-  simp [recordOf, lib, user] at h2
+  refine ⟨catch_all_shapes lib w hw _ 0 ⟨rfl, rfl⟩ [user] user rfl _, ?_⟩
+  revert hshape; revert w; decide
 
-theorem async_with_statement_false : ¬ catch_all_shapes_statement := by
-  intro h
-  let lib : Str → Frame := fun fn => { gname := some (some "loguru._logger".toList), file := "_logger.py".toList, func := fn, line := 0 }
-  let user : Frame := { gname := some (some "__main__".toList), file := "app.py".toList, func := "block".toList, line := 12 }
-  have hw : ({ shape := "async with".toList, chain := ["__exit__".toList, "__aexit__".toList], fromDecorator := false } : CatchRow)
-      ∈ Gen.catchRows := by decide
-  have h1 := h lib _ hw [0, 0, 0, 0, 0, 0, 1, 0, 0] 0 ⟨rfl, rfl⟩ [user] user rfl ⟨1, [], 2, [], 10, 3⟩
-  exact async_with_witness _ hw rfl h1
+/-- regression (finding F24, fixed by 2911d6a): the `async for` path pushes no frame beyond `asend` -/
+theorem asyncgen_anext_witness :
+    ∀ w ∈ Gen.catchRows, w.shape = "asyncgen.__anext__".toList → w.chain = ["__exit__".toList, "asend".toList] := by
+  decide
+
+/-! ### `get_frame_fallback` agrees with `sys._getframe` (finding F22, fixed by 3b5d8d8) -/
+
+theorem fallbackWalk_eq_drop (n : Nat) (stack : List Frame) :
+    fallbackWalk Gen.fallbackBreaksOnNone n stack = .ok (stack.drop n) := by
+  induction n generalizing stack with
+  | zero => simp [fallbackWalk]
+  | succ n ih =>
+    cases stack with
+    | nil => simp [fallbackWalk, Gen.fallbackBreaksOnNone]
+    | cons f rest => simp [fallbackWalk, ih]
+
+/-- for every stack and every n ≥ 0 the pure-Python fallback returns the frame `sys._getframe(n)`
+returns and raises ValueError exactly when it does (so `_log`'s `except ValueError` covers it) -/
+theorem fallback_agrees_with_sys_getframe (stack : List Frame) (n : Nat) :
+    getFrameFallback stack n = (getFrame stack (n : Int)).map some := by
+  unfold getFrameFallback getFrame
+  rw [fallbackWalk_eq_drop]
+  simp only [Int.toNat_natCast]
+  cases h : stack.drop n with
+  | nil =>
+    have : stack[n]? = none := by
+      have := List.drop_eq_nil_iff.mp h
+      simpa using this
+    simp [this, Gen.fallbackRaisesOnNone, Except.map]
+  | cons f rest =>
+    have : stack[n]? = some f := by
+      have h2 := congrArg List.head? h
+      simpa [List.head?_drop] using h2
+    simp [this, Except.map]
 
 /-! ### thread, process, time, elapsed; totality -/
 
